@@ -424,25 +424,32 @@ def id_model_check(n, order, tier, want):
 # EpochManager: M (EpochImpl) with the exit order observed in the running code
 # ------------------------------------------------------------------------------------------------
 def epoch_model_check(group, tier, order):
-    """group: 'pin' (C04), 'mono' (C16), 'list' (C17).  Returns list of result dicts."""
+    """group: 'pin' (C04), 'mono' (C16), 'list' (C17), 'seq' (C20).  Returns list of result dicts."""
     bdir = vlib.build(2)
     q = tier == 'quick'
     base = {'Cap': 2, 'Init0': 2, 'MaxGuards': 2, 'ExitOrder': '"%s"' % order}
     W2, W3 = {1, 2}, {1, 2, 3}
     if group == 'pin':
-        cfgs = [('w2n1', dict(base, Workers=W2, N=1, MaxFwd=3, WithWalk=False, NoStall=False), ['C04', 'SlotOwner'], [], None)]
+        cfgs = [('w2n1', dict(base, Workers=W2, N=1, MaxFwd=3, WithWalk=False, NoStall=False), ['C04', 'SlotOwner', 'ChainOK'], [], None)]
         if not q:
-            cfgs += [('w3n2', dict(base, Workers=W3, N=2, MaxFwd=3, WithWalk=False, NoStall=False), ['C04', 'SlotOwner'], [], None),
-                     ('w2n2f5', dict(base, Workers=W2, N=2, MaxFwd=5, WithWalk=False, NoStall=False), ['C04', 'SlotOwner'], [], None)]
+            cfgs += [('w3n2', dict(base, Workers=W3, N=2, MaxFwd=3, WithWalk=False, NoStall=False), ['C04', 'SlotOwner', 'ChainOK'], [], None),
+                     ('w2n2f5', dict(base, Workers=W2, N=2, MaxFwd=5, WithWalk=False, NoStall=False), ['C04', 'SlotOwner', 'ChainOK'], [], None)]
     elif group == 'mono':
-        cfgs = [('w2n1', dict(base, Workers=W2, N=1, MaxFwd=4, WithWalk=False, NoStall=False), ['MinLeCur'], ['OneStep'], None)]
+        cfgs = [('w2n1', dict(base, Workers=W2, N=1, MaxFwd=4, WithWalk=False, NoStall=False), ['MinLeCur', 'Quiescent'], ['OneStep'], None)]
         if not q:
-            cfgs += [('w2n2', dict(base, Workers=W2, N=2, MaxFwd=5, WithWalk=False, NoStall=False), ['MinLeCur'], ['OneStep'], None)]
+            cfgs += [('w2n2', dict(base, Workers=W2, N=2, MaxFwd=5, WithWalk=False, NoStall=False), ['MinLeCur', 'Quiescent'], ['OneStep'], None)]
+    elif group == 'seq':
+        sq = ['SeqExact', 'ChainOK', 'MinLeCur']
+        cfgs = [('w2n2f3', dict(base, Workers=W2, N=2, MaxFwd=3, MaxGuards=1, WithWalk=False, NoStall=False), sq, [], None),
+                ('w1n1f6', dict(base, Workers={1}, N=1, MaxFwd=6, WithWalk=False, NoStall=False), sq, [], None)]     # node retirement
+        if not q:
+            cfgs += [('w2n2f5', dict(base, Workers=W2, N=2, MaxFwd=5, WithWalk=False, NoStall=False), sq, [], None),
+                     ('w3n3f2', dict(base, Workers=W3, N=3, MaxFwd=2, MaxGuards=1, WithWalk=False, NoStall=False), sq, [], None)]
     else:
-        cfgs = [('w1n1-nostall', dict(base, Workers={1}, N=1, MaxFwd=6, WithWalk=True, NoStall=True), ['NodeSafe', 'OwnList'], [], 'StallBound'),
+        cfgs = [('w1n1-nostall', dict(base, Workers={1}, N=1, MaxFwd=6, WithWalk=True, NoStall=True), ['NodeSafe', 'OwnList', 'ChainOK'], [], 'StallBound'),
                 ('w1n1-free', dict(base, Workers={1}, N=1, MaxFwd=5, WithWalk=True, NoStall=False), ['NodeSafe', 'OwnList'], [], None)]
         if not q:
-            cfgs += [('w2n2-nostall', dict(base, Workers=W2, N=2, MaxFwd=5, WithWalk=True, NoStall=True), ['NodeSafe', 'OwnList'], [],
+            cfgs += [('w2n2-nostall', dict(base, Workers=W2, N=2, MaxFwd=5, WithWalk=True, NoStall=True), ['NodeSafe', 'OwnList', 'ChainOK'], [],
                       'StallBound')]
     out = []
     for tag, consts, invs, props, con in cfgs:
@@ -485,3 +492,271 @@ def cex_overlap(cex):
         elif act in ('WAt', 'Leave') or (act == 'EStore' and False):
             inside.pop(args[0], None) if act == 'Leave' else None
     return best
+
+
+# ------------------------------------------------------------------------------------------------
+# EpochManager: B1 conformance (EpochImplTrace) - one event per quantum of the real code
+# ------------------------------------------------------------------------------------------------
+EP_L2_FIELDS = ('t', 'i', 'v', 'm', 'x', 'n', 'nn')
+EP_MAX = 999999
+
+
+def _epval(hexs):
+    v = int(hexs, 16)
+    return EP_MAX if v == 0xFFFFFFFFFFFFFFFF else v
+
+
+def epoch_l2_stream(ex):
+    """Steps of one real execution in EpochImpl's vocabulary.  Returns (events, ok); ok False when the execution
+    uses something the Level-2 model does not describe (then it is skipped, not rejected)."""
+    evs = [e for e in ex.events if e.get('t', 0) > 0]
+    if ex.status != 'ok' or any(e.get('e') in ('uaf', 'doublefree') or e.get('freed') == 1 for e in ex.events):
+        return [], False
+    ecap = 256
+    ncap = None
+    for e in ex.events:
+        if e.get('e') == 'cfg':
+            ecap = e.get('ecap', 256)
+            ncap = e.get('cap')
+    # next event of the same thread
+    nxt = [None] * len(evs)
+    last = {}
+    for k in range(len(evs) - 1, -1, -1):
+        t = evs[k]['t']
+        nxt[k] = last.get(t)
+        last[t] = k
+
+    def off(loc):
+        if loc == 'EM':
+            return 0
+        if loc.startswith('EM+'):
+            return int(loc[3:])
+        return None
+
+    # slot of every thread (from its entered_ stores / re-binding points), base address of the ID flags
+    slot_of = {}
+    claim_addr = {}
+    for e in evs:
+        t = e['t']
+        if e.get('e') == 'op' and e.get('site', '').startswith('epoch.cpp') and e['k'] == 'store':
+            o = off(e['loc'])
+            if o is not None and o >= 72 and (o - 72) % 64 == 0:
+                slot_of.setdefault(t, (o - 72) // 64)
+        elif e.get('e') == 'op' and e.get('site', '').startswith('id_manager.cpp') and e['k'] == 'xchg' and e['b'] == '0' \
+                and e['loc'].startswith('@'):
+            claim_addr[t] = int(e['loc'][1:], 16)
+    base = None
+    for t, a in claim_addr.items():
+        if t in slot_of:
+            b = a - slot_of[t]
+            if base is not None and base != b:
+                return [], False
+            base = b
+    node_range = {'PN1': 1}
+    out = []
+    ok = True
+    in_fwd = {}
+    phase = {}          # none | tested | loaded | stored | walking | held
+    fload_v = {}
+    last_pt_obj = {}
+    flag_stored = set()
+
+    def emit(kind, **kw):
+        o = {'e': kind, 'list': kw.pop('list', [])}
+        for f in EP_L2_FIELDS:
+            o[f] = kw.get(f, -1)
+        out.append(o)
+
+    def next_of(k, skip=('free', 'uaf', 'alloc')):
+        j = nxt[k]
+        while j is not None and evs[j].get('e') in skip:
+            j = nxt[j]
+        return evs[j] if j is not None else None
+
+    def node_of(obj):
+        return node_range.get(obj.split('+')[0], -1)
+
+    def flist_after(k, t):
+        ne = next_of(k)
+        n = node_of(ne['obj']) if ne and ne.get('e') == 'pt' and ne.get('name') == 'epoch.retire.delete' else 0
+        emit('flist', t=t, n=n)
+
+    for k, e in enumerate(evs):
+        kind = e.get('e')
+        t = e['t']
+        if kind == 'fcall':
+            in_fwd[t] = True
+        elif kind == 'fdone':
+            in_fwd[t] = False
+        elif kind == 'alloc' and e.get('cls') == 'PN':
+            node_range[e['n']] = (fload_v.get(t, 0) + 1) // ecap
+        elif kind == 'op':
+            site = e.get('site', '')
+            o = off(e['loc'])
+            if site.startswith('id_manager.cpp'):
+                if e['k'] == 'xchg' and e['b'] == '0':
+                    emit('claim', t=t, i=(int(e['loc'][1:], 16) - base) if (base is not None and e['loc'].startswith('@')) else -1)
+                elif e['k'] == 'store':
+                    flag_stored.add(t)
+                    emit('exflag', t=t, i=(int(e['loc'][1:], 16) - base) if (base is not None and e['loc'].startswith('@')) else -1)
+            elif site.startswith('epoch.cpp'):
+                if e['k'] == 'load' and o == 0:
+                    if phase.get(t, 'none') in ('none', 'held'):
+                        emit('ctest', t=t, x=0)
+                    emit('eload', t=t, v=_epval(e['a']))
+                    phase[t] = 'loaded'
+                elif e['k'] == 'store' and o is not None and o >= 72 and (o - 72) % 64 == 0:
+                    if _epval(e['a']) == EP_MAX:
+                        emit('leave', t=t, i=(o - 72) // 64)
+                        phase[t] = 'none'
+                    else:
+                        emit('estore', t=t, i=(o - 72) // 64, v=_epval(e['a']))
+                        phase[t] = 'stored'
+                elif e['k'] == 'load' and o is not None and o >= 72 and (o - 72) % 64 == 0:
+                    if in_fwd.get(t):
+                        i = (o - 72) // 64
+                        emit('fread', t=t, i=i, v=_epval(e['a']))
+                        if ncap is not None and i == ncap - 1:
+                            flist_after(k, t)
+                else:
+                    ok = False
+            elif site.startswith('epoch_manager.cpp'):
+                if e['k'] == 'load' and o == 0:
+                    if in_fwd.get(t):
+                        ne = next_of(k, skip=('free', 'uaf'))
+                        fload_v[t] = _epval(e['a'])
+                        emit('fload', t=t, v=_epval(e['a']), nn=int(bool(ne and ne.get('e') == 'alloc' and ne.get('cls') == 'PN')))
+                    else:
+                        emit('rcur', t=t, v=_epval(e['a']))
+                elif e['k'] == 'load' and o == 8:
+                    emit('rmin', t=t, v=_epval(e['a']))
+                elif e['k'] == 'store' and o == 0 and in_fwd.get(t):
+                    emit('fpub', t=t, v=_epval(e['a']))
+                elif e['k'] == 'store' and o == 8 and in_fwd.get(t):
+                    emit('fmin', t=t, v=_epval(e['a']))
+                else:
+                    ok = False
+            elif e.get('cls') == 'epoch':
+                ok = False
+        elif kind == 'pt':
+            name = e.get('name')
+            last_pt_obj[t] = e.get('obj', '')
+            if name == 'epoch.create.rebind':
+                emit('ctest', t=t, x=1)
+                phase[t] = 'tested'
+            elif name == 'epoch.walk.hop':
+                if not in_fwd.get(t) and phase.get(t) == 'stored':
+                    emit('whead', t=t, n=node_of(e['obj']))
+                    phase[t] = 'walking'
+            elif name == 'id.exit.mid':
+                if t not in flag_stored:
+                    emit('exhb', t=t)
+        elif kind == 'ptr':
+            name = e.get('name')
+            if name == 'epoch.create.rebind':
+                emit('cbind', t=t)
+            elif name == 'epoch.walk.hop':
+                if not in_fwd.get(t) and phase.get(t) == 'walking':
+                    ne = next_of(k)
+                    if ne and ne.get('e') == 'pt' and ne.get('name') == 'epoch.walk.hop':
+                        emit('wderef', t=t, n=node_of(ne['obj']), x=0)
+                    else:
+                        emit('wderef', t=t, n=0, x=1)
+                        phase[t] = 'held'
+            elif name == 'epoch.collect.slot':
+                o = off(last_pt_obj.get(t, ''))
+                if o is None or o < 64 or (o - 64) % 64:
+                    ok = False
+                    continue
+                i = (o - 64) // 64
+                ne = next_of(k)
+                alive = bool(ne and ne.get('e') == 'op' and ne.get('site', '').startswith('epoch.cpp') and ne['k'] == 'load')
+                emit('ftest', t=t, i=i, x=0 if alive else 1)
+                if not alive and ncap is not None and i == ncap - 1:
+                    flist_after(k, t)
+            elif name == 'epoch.retire.delete':
+                ne = next_of(k)
+                nn = node_of(ne['obj']) if ne and ne.get('e') == 'pt' and ne.get('name') == 'epoch.retire.delete' else 0
+                emit('fdelete', t=t, n=node_of(last_pt_obj.get(t, '')), nn=nn)
+            elif name == 'id.exit.mid':
+                if t in flag_stored:
+                    emit('exhb', t=t)
+        elif kind == 'gret':
+            if phase.get(t) == 'stored':
+                phase[t] = 'held'
+            emit('gret', t=t, v=e['ep'], x=e.get('haslist', 0), list=e.get('list', []))
+        elif kind == 'fobs':
+            emit('fobs', t=t, v=e['cur'], m=e['min'], x=e.get('haslist', 0), list=e.get('list', []))
+    return out, ok
+
+
+def epoch_conformance(tier, seed=0):
+    """B1 for the epoch manager: explored real executions must be step-for-step behaviours of EpochImpl."""
+    import checks
+    res_all = {'ok': True, 'streams': 0, 'executions': 0, 'events': 0, 'states': 0, 'transitions': 0, 'rejected': [], 'skipped': 0,
+               'exit_order': None, 'capacities': []}
+    q = tier == 'quick'
+    key = 'epconf|%s|%s|%s|%s' % (os.path.basename(vlib.build(3)), os.path.basename(vlib.build(2)), tier, _spec_hash())
+    cp = _cache_path('epconf', key)
+    if os.path.exists(cp):
+        return json.load(open(cp))
+    order = id_conformance(2, tier, seed)['exit_order']
+    res_all['exit_order'] = order
+    if order == 'mixed':
+        res_all['ok'] = False
+        json.dump(res_all, open(cp, 'w'))
+        return res_all
+    plan = [(n, [p for p in progs if not any(s in p.split()[1] for s in ('ep_stall', 'ep_edge', 'ep_reuse_edge'))], par)
+            for n, progs, par in checks.epoch_programs(tier, ('pin', 'mono', 'list'))]
+    # node retirement (FDelete) needs more than two 256-epoch ranges: bulk forwards, a guard taken afterwards
+    plan.append((3, [checks.ep_prog('ep_conf_retire', 3, ['BAR:1:2 GL RL D G D', 'FQ:515 BAR:1:2 F F F'])], dict(pb=1, max_exec=40)))
+    plan.append((3, [checks.ep_prog('ep_conf_retire2', 3, ['GL BAR:1:2 BAR:2:2 RL D', 'BAR:1:2 FQ:600 F BAR:2:2 F FQ:300 F'])],
+                 dict(pb=1, max_exec=30)))
+    workdir = os.path.join(OUT, 'work', 'l2_ep.%d' % os.getpid())
+    os.makedirs(workdir, exist_ok=True)
+    by_cap = {}
+    for n, progs, par in plan:
+        if progs:
+            by_cap.setdefault(n, []).append((progs, par))
+    for n, items in sorted(by_cap.items()):
+        bdir = vlib.build(n)
+        execs = []
+        for k, (progs, par) in enumerate(items):
+            files = vlib.run_harness(bdir, 'threadh', [], progs, workdir, mode='dfs', pb=min(par.get('pb', 2), 2),
+                                     max_exec=min(par.get('max_exec', 1000), 400 if q else 5000), seed=seed, tag='epconf%d_%d' % (n, k))
+            execs.extend(e for f in files for e in vlib.iter_execs(f))
+        skipped = [0]
+
+        def proj(ex):
+            st, ok = epoch_l2_stream(ex)
+            if not ok or not st:
+                skipped[0] += 1
+                return []
+            return st
+        groups = [g for g in vlib.dedup_histories(execs, proj) if g[0]]
+        hists = [g[0] for g in groups]
+        reps = [g[1] for g in groups]
+        cfg = vlib.write_cfg(os.path.join(SPEC, 'cfg', 'EpochImplTrace.tpl.cfg'), {'N': n, 'ExitOrder': order},
+                             os.path.join(workdir, 'epconf%d.cfg' % n))
+        rej, st = vlib.validate_until_clean(os.path.join(SPEC, 'EpochImplTrace.tla'), cfg, hists, workdir, 'epconf%d' % n, max_rounds=2)
+        res_all['capacities'].append(n)
+        res_all['streams'] += len(hists)
+        res_all['executions'] += len(execs)
+        res_all['skipped'] += skipped[0]
+        res_all['events'] += st['events']
+        res_all['states'] += st['distinct']
+        res_all['transitions'] += st['states']
+        for r in rej[:5]:
+            h = hists[r['hist']]
+            res_all['rejected'].append({'capacity': n, 'program': reps[r['hist']].prog, 'schedule': reps[r['hist']].sched, 'line': r['line'],
+                                        'event': h[r['line']] if r['line'] < len(h) else None,
+                                        'before': h[max(0, r['line'] - 3):r['line']]})
+        if rej:
+            res_all['ok'] = False
+        if hists and not res_all.get('sample'):
+            res_all['sample'] = {'program': reps[0].prog, 'schedule': reps[0].sched,
+                                 'stream_head': [{k: v for k, v in e.items() if v not in (-1, [])} for e in hists[0][:14]]}
+    json.dump(res_all, open(cp, 'w'))
+    import shutil
+    shutil.rmtree(workdir, ignore_errors=True)
+    return res_all
